@@ -23,7 +23,7 @@ LABEL_FLOORS = {'inverse': 0.35, 'forward': 0.35, 'nondefault_layout': 0.4}
 
 def plan(tier):
     if tier == 'quick':
-        return [{'n': 150} for _ in range(8)]
+        return [{'n': 150} for _ in range(16)]
     units = [{'n': 40, 'biort': b, 'qshift': q, 'direction': d} for b, q in dtu.PAIRS for d in ('forward', 'inverse')]
     units += [{'n': 25, 'o_dim': o, 'ri_dim': ri, 'direction': d} for o, ri in LAYOUTS for d in ('forward', 'inverse')]
     units += [{'n': 2500} for _ in range(16)]
